@@ -10,8 +10,8 @@ _T = ['sym_reverses_velocity_only', 'outsup_copies', 'outsub_imposes_pressure', 
       'insub2d_def', 'insup2d_def', 'insub_compatible', 'insup_compatible', 'outsub_compatible', 'outsub_qtot_compatible',
       'outsub_nrcbc_compatible', 'outsub_rh_compatible']
 THEOREMS = ['Flowdyn.C16.' + t for t in _T]
-AUDIT_IMPORTS = ['Flowdyn.Props.KernelsBridge']
-THEOREMS = THEOREMS + ['Flowdyn.GenK.%s_eq' % k for k in ['eBcInsub', 'eBcInsubCbc', 'eBcInsup', 'eBcOutsubQtot', 'eBcOutsubRh', 'eBcOutsubNrcbc', 'eBcSym', 'eBcOutsub', 'eBcOutsup']]
+AUDIT_IMPORTS = ['Flowdyn.Props.KernelsBridge', 'Flowdyn.Props.Kernels2DBridge']
+THEOREMS = THEOREMS + ['Flowdyn.GenK.%s_eq' % k for k in ['eBcInsub', 'eBcInsubCbc', 'eBcInsup', 'eBcOutsubQtot', 'eBcOutsubRh', 'eBcOutsubNrcbc', 'eBcSym', 'eBcOutsub', 'eBcOutsup']] + ['Flowdyn.GenK2.%s_eq' % k for k in ['e2BcSym', 'e2BcInsub', 'e2BcInsup', 'e2BcOutsub', 'e2BcOutsup']]
 PARTIAL = {}
 LEVEL_NOTE = "boundary kernels over the reals with explicit regime hypotheses; dispatch by name/direction/parameter dictionary is covered by L-bcker and L-bc1d/L-bc2d"
 TOL = 1e-9
